@@ -10,6 +10,7 @@ package sim
 
 import (
 	"fmt"
+	"os"
 	"sort"
 	"testing"
 
@@ -35,6 +36,8 @@ type stratCase struct {
 	TailLen int
 	Iso       bool `json:",omitempty"` // messages between the victims and the other honest replicas are lost throughout (the Byzantine leader reaches both sides, and block fetches reach only what is reachable)
 	ServeBack int  `json:",omitempty"` // > 0: the leader answers block fetches only for blocks of the last ServeBack views
+	ServeEvery int `json:",omitempty"` // > 1: the leader answers only every ServeEvery-th block request
+	IsoAll     bool `json:",omitempty"` // with Iso: ALL messages between honest replicas are lost (everybody hears only the leader)
 }
 
 type stratRun struct {
@@ -48,6 +51,7 @@ type stratRun struct {
 	forks   int
 	iso       bool
 	serveBack int
+	serveEvery int
 }
 
 // assemble turns every block with a quorum of votes (honest votes seen on the wire plus the actors' own) into a certificate.
@@ -198,6 +202,17 @@ func (r *stratRun) propose(v hotstuff.View, ext hotstuff.QuorumCert, to []*Stack
 	p := hotstuff.ProposeMsg{ID: r.lead.ID}
 	if cl.Cfg.Rules == "fasthotstuff" && ext.View()+1 != v && v > 1 {
 		p.AggregateQC = r.aggFor(v-1, ext)
+		if p.AggregateQC == nil && os.Getenv("VERIF_STRAT_DEBUG") != "" {
+			n := 0
+			for _, t := range a.Timeouts {
+				if t.View == v-1 {
+					n++
+					q, _ := t.SyncInfo.QC()
+					fmt.Printf("DEBUG timeout view %d from %d msgsig=%v qcview=%d\n", t.View, t.ID, t.MsgSignature != nil, q.View())
+				}
+			}
+			fmt.Printf("DEBUG no aggregate for view %d ext view %d; own %d, seen %d\n", v-1, ext.View(), len(r.myTO[v-1]), n)
+		}
 	}
 	p.Block = hotstuff.NewBlock(ext.BlockHash(), ext, a.batch(), v, r.lead.ID)
 	cl.register(p.Block)
@@ -209,6 +224,7 @@ func (r *stratRun) propose(v hotstuff.View, ext hotstuff.QuorumCert, to []*Stack
 // view plays one view of the strategy; all honest replicas are in view v when it starts and in v+1 when it ends.
 func (r *stratRun) view(v hotstuff.View, s sview, timeouts bool) {
 	cl, a := r.cl, r.a
+	a.ServeEvery = r.serveEvery
 	if r.serveBack > 0 {
 		a.ServeFetch = true
 		a.ServeFrom = 0
@@ -303,7 +319,7 @@ func stratRunWith(c stratCase, prop string) common.Result {
 	}
 	defer cl.Close()
 	cl.Start()
-	r := &stratRun{cl: cl, a: cl.Actor, victims: map[int]bool{}, qcFor: map[hotstuff.Hash]hotstuff.QuorumCert{}, myTO: map[hotstuff.View][]hotstuff.TimeoutMsg{}, iso: c.Iso, serveBack: c.ServeBack}
+	r := &stratRun{cl: cl, a: cl.Actor, victims: map[int]bool{}, qcFor: map[hotstuff.Hash]hotstuff.QuorumCert{}, myTO: map[hotstuff.View][]hotstuff.TimeoutMsg{}, iso: c.Iso, serveBack: c.ServeBack, serveEvery: c.ServeEvery}
 	for _, st := range cl.Stacks {
 		if st.Kind == "actor" && int(st.ID) == c.N {
 			r.lead = st
@@ -317,6 +333,8 @@ func stratRunWith(c stratCase, prop string) common.Result {
 		for i := range r.honest {
 			if r.victims[r.honest[i].Idx] {
 				cl.Part[r.honest[i].Idx] = 1
+			} else if c.IsoAll {
+				cl.Part[r.honest[i].Idx] = 2 + i
 			}
 		}
 	}
@@ -555,9 +573,11 @@ func TestC07StrategyPace(t *testing.T) {
 // an arbitrary move with probability 1/6, the fork depth, the number of leading views, the audiences' order and the fetch window
 // are drawn. n = 4: honest replicas 0 (victim), 1, 2 in the audience bit masks.
 func genWithholdStrategy(rt *rapid.T) stratCase {
-	c := stratCase{Rules: rapid.SampledFrom([]string{"chainedhotstuff", "simplehotstuff"}).Draw(rt, "rules"), N: 4, Victims: 1, Iso: true}
-	c.Warm = rapid.IntRange(1, 2).Draw(rt, "warm")
-	c.ServeBack = rapid.IntRange(1, 3).Draw(rt, "serveback")
+	c := stratCase{Rules: rapid.SampledFrom(AllRules).Draw(rt, "rules"), N: 4, Victims: 1, Iso: true}
+	c.Warm = rapid.IntRange(0, 2).Draw(rt, "warm")
+	c.ServeBack = rapid.IntRange(0, 3).Draw(rt, "serveback")
+	c.ServeEvery = rapid.SampledFrom([]int{0, 0, 2, 2, 3}).Draw(rt, "serve-every")
+	c.IsoAll = rapid.Bool().Draw(rt, "iso-all")
 	o1, o2 := 2, 4
 	if rapid.Bool().Draw(rt, "swap") {
 		o1, o2 = o2, o1
